@@ -56,7 +56,7 @@ fn stub_check<T: RDH, C: ChecksOpt + FilterOpt + CustomChecksOpt>(_v: &mut CdpRu
 #[kani::stub(CdpRunningValidator::check, stub_check)]
 #[kani::unwind(42)]
 fn bnd40_do_payload_checks_ok() {
-    do_payload_checks_case(false);
+    do_payload_checks_case::<40>(false);
 }
 
 // @harness id=bnd40_do_payload_checks_err props=C12,C02,C04 kind=bnd tier=quick bound=payload<=40B fns=do_payload_checks,preprocess_payload,CdpRunningValidator::reset_fsm stubs=alloc::fmt::format,flume::Sender::send,CdpRunningValidator::check
@@ -68,19 +68,19 @@ fn bnd40_do_payload_checks_ok() {
 #[kani::stub(CdpRunningValidator::check, stub_check)]
 #[kani::unwind(42)]
 fn bnd40_do_payload_checks_err() {
-    do_payload_checks_case(true);
+    do_payload_checks_case::<40>(true);
 }
 
-fn do_payload_checks_case(error_path: bool) {
+fn do_payload_checks_case<const N: usize>(error_path: bool) {
     let rb: [u8; 64] = kani::any();
     let rdh = RdhCru::from_buf(&rb[..]).unwrap();
     let s = fake_sender();
     // validator whose FSM is in the middle of a split packet (state c_IHW), i.e. not the initial state
     let mut v = crate::analyze::validators::its::cdp_running::verif_cdp_running::validator_in(5, true, None, &rb, 64, 0);
     unsafe { CK.calls = 0; CK.order_ok = true; }
-    let data: [u8; 40] = kani::any();
+    let data: [u8; N] = kani::any();
     let len: usize = kani::any();
-    kani::assume(len >= 1 && len <= 40);
+    kani::assume(len >= 1 && len <= N);
     let p = &data[..len];
     // trailing 0xFF run
     let mut run = 0;
@@ -114,3 +114,23 @@ fn do_payload_checks_case(error_path: bool) {
     core::mem::forget(s);
 }
 
+
+// @harness id=bnd64_do_payload_checks_ok props=C12,C01,C07,C04 kind=bnd tier=thorough bound=payload<=64B fns=do_payload_checks,preprocess_payload,CdpRunningValidator::set_current_rdh stubs=alloc::fmt::format,flume::Sender::send,CdpRunningValidator::check
+#[kani::proof]
+#[kani::stub(alloc::fmt::format, stub_format_nonempty)]
+#[kani::stub(flume::Sender::send, stub_send)]
+#[kani::stub(CdpRunningValidator::check, stub_check)]
+#[kani::unwind(66)]
+fn bnd64_do_payload_checks_ok() {
+    do_payload_checks_case::<64>(false);
+}
+
+// @harness id=bnd64_do_payload_checks_err props=C12,C02,C04 kind=bnd tier=thorough bound=payload<=64B fns=do_payload_checks,preprocess_payload,CdpRunningValidator::reset_fsm stubs=alloc::fmt::format,flume::Sender::send,CdpRunningValidator::check
+#[kani::proof]
+#[kani::stub(alloc::fmt::format, stub_format_nonempty)]
+#[kani::stub(flume::Sender::send, stub_send)]
+#[kani::stub(CdpRunningValidator::check, stub_check)]
+#[kani::unwind(66)]
+fn bnd64_do_payload_checks_err() {
+    do_payload_checks_case::<64>(true);
+}
